@@ -93,7 +93,7 @@ def pairing(fx, ck):
                     ck.finding("R2.cross-function", "R2.open-only/%s/%s" % (path, name), F.short_span(opens[0][4]),
                                "`%s` pushes onto %s (%s) and no path of the function pops it" % (path, name, opens[0][3]))
             elif closes:
-                ok = path in CLOSE_ONLY or M.only_called_from(fx, path, set(CLOSE_ONLY))
+                ok = path in CLOSE_ONLY or M.only_called_from(fx, path, set(CLOSE_ONLY)) or kind in E.closing_helpers(fx).get(path, ())
                 ck.instance("R2.cross-function", "%s closes %s" % (path, name), F.short_span(closes[0][4]), ok=ok)
                 if not ok:
                     ck.finding("R2.cross-function", "R2.close-only/%s/%s" % (path, name), F.short_span(closes[0][4]),
@@ -149,7 +149,7 @@ def handler_unwind(fx, ck, name="R5.handler-unwinds-scopes"):
     is entered with the try block's scopes still pushed keeps their environment guards for as long as nothing
     re-throws (a `finally` that returns, breaks or continues): the guards leak and the next scope exit pops
     the wrong environment."""
-    ck.rule(name, "each Some-return of find_exception_handler is dominated by an unwind to TryHandler.scope_depth", floor=2)
+    ck.rule(name, "each Some-return of find_exception_handler is dominated by an unwind to TryHandler.scope_depth", floor=1)
     f = fx.one("BytecodeVM::find_exception_handler")
 
     def from_depth(g, op, depth=0):
@@ -196,7 +196,7 @@ def handler_unwind(fx, ck, name="R5.handler-unwinds-scopes"):
                     ck.finding(name, "%s/find_exception_handler" % name, F.short_span(st[3]),
                                "find_exception_handler hands control to a handler without unwinding the block scopes to handler.scope_depth: if the handler "
                                "does not re-throw (finally { return / break / continue }), the try block's scopes and their environment guards stay pushed")
-    ck.anchor(n >= 2, "Some-returns of find_exception_handler (found %d)" % n)
+    ck.anchor(n >= 1, "Some-returns of find_exception_handler (found %d)" % n)
 
 
 def run(tier):
@@ -264,6 +264,20 @@ def run_end_scopes(fx, ck):
     ck.rule("R7.uncaught-error-unwinds", "the error dispatcher unwinds the current frame's block scopes before it returns the error to the run's caller", floor=1)
     disp = [f for f in fx.fns.values() if not f.closure and f.path.startswith("interpreter::bytecode_vm::BytecodeVM::") and
             any((t[1].get("d") or "").endswith("find_exception_handler") for bi, t in f.calls()) and "Result<(), error::JsError>" in fx.tys(f.locals[0])]
+    # a helper that only looks at the current frame on behalf of the dispatcher (`catch_in_current_frame`) is not the one that gives the error back
+    # to the run's caller: keep the functions that are not called exclusively by another function returning Result<(), JsError> in the VM
+    def vm_result_fn(g):
+        return not g.closure and g.path.startswith("interpreter::bytecode_vm::BytecodeVM::") and "Result<(), error::JsError>" in fx.tys(g.locals[0])
+    inner = set()
+    for g in disp:
+        callers = [h for h in fx.fns.values() if not h.derived and any(t[1].get("d") == g.path for _, t in h.calls())]
+        if callers and all(vm_result_fn(fx.fns[h.parent] if h.closure else h) for h in callers):
+            inner.add(g.path)
+            for h in callers:
+                hh = fx.fns[h.parent] if h.closure else h
+                if hh not in disp:
+                    disp.append(hh)
+    disp = [g for g in disp if g.path not in inner]
     ck.anchor(bool(disp), "error dispatcher (calls find_exception_handler, returns Result<(), JsError>)")
     for f in disp:
         errs = [bi for bi, bl in enumerate(f.blocks) for st in bl["s"]
@@ -313,8 +327,16 @@ def run_end_scopes(fx, ck):
             if en.endswith("VmResult") and "Yield" in arms:
                 region = M.dominated_region(f, arms["Yield"])
                 # the arm keeps the state (it does not just report an internal error)
-                if any(st[0] == "a" and st[1][1] and F.place_fields(st[1]) and "saved_" in F.place_fields(st[1])[-1][2] for b in region for st in f.blocks[b]["s"]):
+                def keeps_state(g, blocks):
+                    return any(st[0] == "a" and st[1][1] and F.place_fields(st[1]) and "saved_" in F.place_fields(st[1])[-1][2] for b in blocks for st in g.blocks[b]["s"])
+                if keeps_state(f, region):
                     yields = True
+                # ... or hands it to a helper that does (`park_generator(&gen_state, &mut vm_state, ..)`)
+                for b in region:
+                    t0 = f.blocks[b]["t"]
+                    h = fx.fns.get(t0[1].get("d") or "") if t0[0] == "call" else None
+                    if h is not None and t0[1].get("local") and keeps_state(h, range(len(h.blocks))):
+                        yields = True
         if not yields:
             continue
         truncs = set()
@@ -324,6 +346,9 @@ def run_end_scopes(fx, ck):
                 fl = E.field_of_ref(f, t[2][0][1][0])
                 if fl and fl[2] == "env_guards":
                     truncs.add(bi)
+            # a clean-up helper of this function that truncates env_guards (see exits.closing_helpers)
+            if d in E.closing_helpers(fx) and "G" in E.closing_helpers(fx)[d]:
+                truncs.add(bi)
         for sb in sites:
             esc = E.escapes(f, sb, truncs)
             ck.instance("R8.yield-restores-guard-depth", "%s: run at %s" % (p, F.short_span(f.blocks[sb]["t"][6])), F.short_span(f.blocks[sb]["t"][6]), ok=esc is None)
